@@ -1,9 +1,9 @@
 """C17 -- native kernels stay inside their arrays for every well-formed input.
 
-correspondence : the *checked-execution* (`Ck`) Lean models of 17 kernels (gauss_seidel, sor_gauss_seidel, jacobi,
+correspondence : the *checked-execution* (`Ck`) Lean models of 24 kernels (gauss_seidel, sor_gauss_seidel, jacobi,
                  jacobi_indexed, gauss_seidel_indexed, gauss_seidel_ne, gauss_seidel_nr, csc_scale_columns/rows,
-                 maximum_row_value, rs_*_interpolation_pass1, naive_aggregation, classical_strength_of_connection_abs/_min,
-                 symmetric_strength_of_connection,
+                 maximum_row_value, rs_*_interpolation_pass1, naive_aggregation, standard_aggregation, classical_strength_of_connection_abs/_min,
+                 symmetric_strength_of_connection, apply_(absolute_)distance_filter, min_blocks, jacobi_ne, one_point_interpolation, bellman_ford,
                  breadth_first_search, maximal_independent_set_serial) are run on exact dyadic inputs; their `.val` must
                  equal the output of the rebuilt kernel exactly and their `ok` flag must be true (the flag is what the
                  safety theorems of Props/C17.lean are about); malformed controls must clear the flag.  The proof-side
@@ -49,15 +49,19 @@ META = {
             '(kernel, dtype signature, argument bytes)',
     'search_only': ['no undefined integer / shift / pointer operation: UBSan + _GLIBCXX_ASSERTIONS on the rebuilt kernels (not modelled in Lean)',
                     'releases what it allocates: live-heap-bytes delta around every traced call (ASan allocator statistics)',
-                    'bounds safety of the kernels without a Ck model (all BSR/block relaxation, Schwarz, CLJP, RS second pass, classical/direct '
-                    'interpolation pass 2, AIR, standard/pairwise aggregation, fit_candidates, satisfy_constraints, calc_BtB, incomplete products, '
-                    'evolution helpers, Lloyd/Floyd-Warshall graph kernels, colouring variants, dense helpers): ASan on generated inputs',
+                    'bounds safety of the 41 kernels without a Ck model (all BSR/block relaxation, Schwarz, RS splitting as a whole and its second pass, CLJP, '
+                    'classical/direct interpolation pass 2, remove_strong_FF_connections, cr_helper, AIR pass 1/2, pairwise aggregation, truncate_rows_csr, '
+                    'fit_candidates, satisfy_constraints, calc_BtB, incomplete products, evolution_strength_helper, filter_matrix_rows, pinv_array, Krylov helpers, '
+                    'Lloyd/Floyd-Warshall graph kernels, parallel/k MIS and the colourings, connected_components): ASan on generated inputs',
+                    'termination of the kernels with data-dependent loops other than the five with a *_total theorem: CPU-time limit per call',
+                    'reads of uninitialised work memory: only through ASan malloc_fill (0xbe) turning garbage indices into wild accesses, and output poisoning',
                     'outputs fully defined: poison patterns in output buffers (contract table CONTRACT in this file)'],
     'partial': ['rs_cf_splitting: rs_incr/decr/step_bounds give the index bounds of every bucket move from the invariants BInv/VInv; '
                 'the preservation of the invariants by the whole loop is proved for the first pass model (C13), the checked model of the whole kernel is not written',
                 'termination theorems (bfs/cc/coloring/mis_parallel/bellman_ford_total) are about the proof-side models (run by the driver via p_* ops), '
                 'not about Ck transcriptions'],
-    'assumptions': ['admissible sweep = `stop` is reached from `start` in k steps of `step`, all visited rows inside 0..n-1 (Ck.Adm); for block kernels rows are block rows',
+    'assumptions': ['admissible sweep = `stop` is reached from `start` in k steps of `step`, all visited rows inside 0..n-1 (Ck.Adm); for block kernels rows are block rows; '
+                    'jacobi_ne (loops `i < stop`) is called with start >= 0, stop <= n, step > 0 only',
                     'inputs the Python callers never construct (S with diagonal for RS/CLJP, unsorted subdomains for Schwarz) are not generated',
                     'scalar arithmetic is abstract in the theorems; overflow of 32-bit index arithmetic is left to UBSan on sizes n <= 40'],
     'trusted_extra': ['g++ AddressSanitizer/UBSan runtime and libstdc++ assertions (the instrumented build is the oracle of the search)',
@@ -196,9 +200,10 @@ CONTRACT = {
 
 
 # ================================================================================================
-# findings of the UNCHANGED tree: narrow input regions (kernel + shape of the arguments).  The bulk stream does not
-# execute calls inside such a region (each abort costs a child process); one fixed probe per region is executed in its
-# own child on every run, so the finding keeps being reported (KNOWN-FINDING when listed, VIOLATION otherwise).
+# narrow input regions (kernel + shape of the arguments) in which the tree violated the property when this check was built.
+# Mechanism: a region listed in KNOWN_REGIONS (a `known:` line of KNOWN_FINDINGS.txt) is not executed by the bulk stream (each
+# abort costs a child process); one fixed probe per region runs in its own child on every check, so the finding keeps being
+# reported (KNOWN-FINDING when listed, VIOLATION otherwise).
 # ================================================================================================
 
 def _k_bsr_jacobi(a):
@@ -783,6 +788,29 @@ class Raw:
             self.call(rng, 'remove_strong_FF_connections', [n, Cp, Cj, Cx2, split])
             self.call(rng, 'one_point_interpolation', [np.empty(n + 1, dtype=np.int32), np.empty(n, dtype=np.int32), np.empty(n), Cp, Cj, Cx, split])
 
+    # ---- RS splitting on many small digraphs of every density (the bucket arrays are stressed when lambda grows after ties)
+    def rs_stress(self, rng):
+        for rep in range(12):
+            n = int(rng.integers(2, 13))
+            dens = float(rng.choice([0.15, 0.3, 0.5, 0.7, 0.9]))
+            M = rng.random((n, n)) < dens
+            if rng.random() < 0.4:
+                M = M | M.T
+            if rng.random() < 0.3:
+                M[:, int(rng.integers(n))] = True          # a node every row depends on
+            np.fill_diagonal(M, False)                       # classical/split.py removes the diagonal
+            sp_ = np.zeros(n + 1, dtype=np.int32)
+            sp_[1:] = np.cumsum(M.sum(axis=1))
+            sj = np.concatenate([np.flatnonzero(M[i]) for i in range(n)]).astype(np.int32) if M.any() else np.zeros(0, dtype=np.int32)
+            tp, tj = transpose_pattern(n, sp_, sj)
+            self.tr.ctx.update(feats=[f'dens={dens}', 'no-diagonal'])
+            split = np.empty(n, dtype=np.int32)
+            self.call(rng, 'rs_cf_splitting', [n, sp_, sj, tp, tj, np.zeros(n, dtype=np.int32), split])
+            if set(np.unique(split)) <= {0, 1}:
+                self.call(rng, 'rs_cf_splitting_pass2', [n, sp_, sj, split])
+            split = np.empty(n, dtype=np.int32)
+            self.call(rng, 'cljp_naive_splitting', [n, sp_, sj, tp, tj, split, int(rng.integers(2))])
+
     # ---- compatible relaxation helper (sizes as in classical/cr.py: indices has n+1 entries, [0] = number of F points)
     def cr(self, rng):
         n = rand_n(rng, big=True)
@@ -958,7 +986,7 @@ class Raw:
             else:
                 self.call(rng, name, [v, W, rand_vec(rng, k, c), n, *s], params)
 
-    SCENARIOS = ['point_relax', 'block_relax', 'classical_chain', 'classical_chain', 'aggregation', 'graph', 'helpers', 'cr', 'products', 'schwarz_raw', 'air_raw']
+    SCENARIOS = ['point_relax', 'block_relax', 'classical_chain', 'classical_chain', 'aggregation', 'graph', 'helpers', 'cr', 'products', 'schwarz_raw', 'air_raw', 'rs_stress']
 
 
 def wf_csr(n, p, j, m=None):
@@ -1673,8 +1701,49 @@ def model_items(seed, ncases, inflight):
             k = int(Sp[n])
             add(f'{op} {enc_rat(th)} {hdr} {enc_ints(np.full(n + 1, -7))} {enc_ints(np.full(len(ix), -7))} {enc_rats(np.full(len(ix), -7.0))}',
                 f'{enc_ints(Sp)};{enc_ints(Sj[:k])};{enc_rats(Sx[:k])};ok', kn, nt)
+        # distance filters on non-negative "distances" (exact thresholds), min_blocks
+        dist = np.abs(dx) * rng.choice([0.5, 1.0, 2.0])
+        dh = f'{n} {enc_ints(ip)} {enc_ints(ix)} {enc_rats(dist)}'
+        for kn, op in (('apply_distance_filter', 'c17_distf'), ('apply_absolute_distance_filter', 'c17_adistf')):
+            eps = float(rng.choice([0.5, 1.0, 2.0, 4.0]))
+            sx = dist.copy()
+            getattr(amg_core, kn)(n, eps, ip, ix, sx)
+            add(f'{op} {enc_rat(eps)} {dh}', enc_rats(sx) + ';ok', kn, nt)
+        nbk, bsz = int(rng.integers(1, 5)), int(rng.integers(1, 5))
+        bx = rng.integers(0, 4, size=nbk * bsz).astype(float) * rng.choice([0.5, 1.0])
+        tx = np.full(nbk, -7.0)
+        amg_core.min_blocks(nbk, bsz, bx, tx)
+        add(f'c17_minblocks {nbk} {bsz} {enc_rats(bx)} {enc_rats(np.full(nbk, -7.0))}',
+            enc_rats(tx) + ';ok', 'min_blocks', True)
+        # jacobi_ne (loops `i < stop`): start >= 0, stop <= n, step > 0
+        j0 = int(rng.integers(0, n))
+        j1 = int(rng.integers(j0, n + 1))
+        j2 = int(rng.integers(1, 4))
+        delta, tmp0 = rand_vec(rng, n), rand_vec(rng, n)
+        x, tmp = x0.copy(), tmp0.copy()
+        amg_core.jacobi_ne(ip, ix, dx, x, b, delta, tmp, j0, j1, j2, np.array([om]))
+        add(f'c17_jacne {enc_rat(om)} {hdr} {enc_rats(delta)} {enc_rats(x0)} {enc_rats(tmp0)} {j0} {j1} {j2}',
+            enc_rats(x) + ';' + enc_rats(tmp) + ';ok', 'jacobi_ne', nt)
         # pattern kernels
         split = rng.integers(0, 2, size=n).astype(np.int32)
+        Pp, Pj, Px = np.full(n + 1, -7, dtype=np.int32), np.full(n, -7, dtype=np.int32), np.full(n, -7.0)
+        amg_core.one_point_interpolation(Pp, Pj, Px, ip, ix, dx, split)
+        k = int(Pp[n])
+        add(f'c17_onepoint {enc_ints(np.full(n + 1, -7))} {enc_ints(np.full(n, -7))} {enc_rats(np.full(n, -7.0))} {hdr} {enc_ints(split)}',
+            f'{enc_ints(Pp)};{enc_ints(Pj[:k])};{enc_rats(Px[:k])};ok', 'one_point_interpolation', nt)
+        # Bellman-Ford with positive dyadic weights
+        w = np.abs(dx) + 0.5
+        kc = int(rng.integers(1, min(n, 3) + 1))
+        centers = rng.choice(n, size=kc, replace=False).astype(np.int32)
+        dd = np.full(n, np.inf)
+        mm = np.full(n, -1, dtype=np.int32)
+        ppd = np.full(n, -1, dtype=np.int32)
+        dd[centers] = 0
+        mm[centers] = np.arange(kc)
+        encd = lambda v: ','.join('inf' if not np.isfinite(t_) else enc_rat(t_) for t_ in v)
+        line = f'c17_bf {n} {enc_ints(ip)} {enc_ints(ix)} {enc_rats(w)} {encd(dd)} {enc_ints(mm)} {enc_ints(ppd)}'
+        amg_core.bellman_ford(n, ip, ix, w, centers, dd, mm, ppd)
+        add(line, f'{encd(dd)};{enc_ints(mm)};{enc_ints(ppd)};ok', 'bellman_ford', nt)
         for kn in ('rs_direct_interpolation_pass1', 'rs_classical_interpolation_pass1'):
             Pp = np.full(n + 1, -7, dtype=np.int32)
             getattr(amg_core, kn)(n, ip, ix, split, Pp)
@@ -1683,6 +1752,10 @@ def model_items(seed, ncases, inflight):
         k = amg_core.naive_aggregation(n, ip, ix, xa, ya)
         add(f'c17_naive {n} {enc_ints(ip)} {enc_ints(ix)} {enc_ints(np.full(n, -7))} {enc_ints(np.full(n, -7))}',
             f'{enc_ints(xa)};{enc_ints(ya[:k])};{k};ok', 'naive_aggregation', nt)
+        xa, ya = np.full(n, -7, dtype=np.int32), np.full(n, -7, dtype=np.int32)
+        k = amg_core.standard_aggregation(n, ip, ix, xa, ya)
+        add(f'c17_stdagg {n} {enc_ints(ip)} {enc_ints(ix)} {enc_ints(np.full(n, -7))} {enc_ints(np.full(n, -7))}',
+            f'{enc_ints(xa)};{enc_ints(ya[:max(k, 0)])};{k};ok', 'standard_aggregation', nt)
         seed = int(rng.integers(n))
         order, level = np.full(n, -9, dtype=np.int32), np.full(n, -1, dtype=np.int32)
         amg_core.breadth_first_search(ip, ix, seed, order, level)
@@ -1762,9 +1835,16 @@ def part_model(ctx, ncases):
         ('c17_maxrow 2 0,1,2 0,1 1,1 0', ';fault'),                          # x too short
         ('c17_pass1 2 0,1,2 1,0 0,0 -7,-7', ';fault'),                       # Pp has n entries instead of n+1
         ('c17_naive 2 0,1,2 5,0 -7,-7 -7,-7', ';fault'),                     # column index out of range
+        ('c17_stdagg 2 0,1,2 1,0 -7,-7 -', ';fault'),                        # y is empty
         ('c17_bfs 2 0,1,2 1,0 0 -9 -1,-1', ';fault'),                        # order buffer too short
         ('c17_soc_abs 0 2 0,2,4 0,1,0,1 1,1,1,1 -7,-7,-7 -7,-7,-7 -7,-7,-7', ';fault'),   # Sj/Sx one entry short
         ('c17_mis 2 0,1,2 7,0 -1 1 0 -1,-1', ';fault'),
+        ('c17_distf 1 2 0,1,3 0,0,1 1,1', ';fault'),                         # Sx shorter than the row pointer says
+        ('c17_adistf 1 2 0,1,3 0,0,1 1,1', ';fault'),
+        ('c17_minblocks 2 2 1,1,1 -7,-7', ';fault'),                        # Sx one entry short
+        ('c17_jacne 1 2 0,1,2 0,1 1,1 1,1 0,0 0,0 0 3 1', ';fault'),        # stop = 3 > n
+        ('c17_onepoint -7,-7,-7 -7 -7 2 0,1,2 0,1 1,1 1,1', ';fault'),      # Pj, Px shorter than n with two C points
+        ('c17_bf 2 0,1,2 1,2 1,1 0,inf 0,-1 -1,-1', ';fault'),              # column index 2 >= n
         ('c17_soc_min 0 2 0,2,4 0,1,0,1 -1,-1,-1,-1 -7,-7,-7 -7,-7,-7 -7,-7,-7', ';fault'),
         ('c17_symsoc 0 2 0,2,4 0,1,0,1 1,1,1,1 -7,-7,-7 -7,-7,-7 -7,-7,-7', ';fault'),          # Sj/Sx one entry short
         ('c17_symsoc 0 2 0,1,2 0,3 1,1 -7,-7,-7 -7,-7 -7,-7', ';fault'),                        # diags[3] out of range
@@ -1824,13 +1904,9 @@ def san_part(ctx, groups, budget, nworkers=8, only=None):
     return calls
 
 
-def san_search_counted(ctx, *a, **k):
-    return san_search(ctx, *a, **k)
-
-
 def run(ctx):
     part_model(ctx, ctx.scale(40, 400))
-    san_part(ctx, ctx.scale(2600, 40000), ctx.scale(30, 800))
+    san_part(ctx, ctx.scale(2600, 160000), ctx.scale(30, 700))
 
 
 def search(ctx):
